@@ -171,7 +171,7 @@ func builtinRules(c *Ctx, names []string, ref *effRef, rulePrefix string) {
 		// data errors
 		allInstrs(f, func(in ssa.Instruction) {
 			call, ok := in.(*ssa.Call)
-			if !ok || call.Call.StaticCallee() == nil || !dataCall[call.Call.StaticCallee().Name()] {
+			if !ok || call.Call.StaticCallee() == nil || !dataCall[fnName(call.Call.StaticCallee())] {
 				return
 			}
 			for _, fe := range failureEdges(f, call) {
@@ -183,7 +183,7 @@ func builtinRules(c *Ctx, names []string, ref *effRef, rulePrefix string) {
 					}
 				}
 				_, exc := ref.DataEx[name]
-				r.Ob("DATA-ERROR", fmt.Sprintf("builtin %s when %s fails", name, call.Call.StaticCallee().Name()), t.Pos(call.Pos()), len(leaked) == 0 || exc,
+				r.Ob("DATA-ERROR", fmt.Sprintf("builtin %s when %s fails", name, fnName(call.Call.StaticCallee())), t.Pos(call.Pos()), len(leaked) == 0 || exc,
 					fmt.Sprintf("effects reachable after the data error: %v — an undecodable/invalid input must not fabricate a value (documented exception: %q)", leaked, ref.DataEx[name]))
 			}
 		})
@@ -254,7 +254,7 @@ func checkC11(c *Ctx) {
 		for _, lit := range sortedKeys(accepted) {
 			cfg := &specCfg{}
 			cfg.Call = func(fn *ssa.Function, call *ssa.Call, nth int, args []sval) (sval, bool) {
-				if cal := call.Call.StaticCallee(); cal != nil && cal.Name() == "ToLower" && len(args) == 1 && args[0].isConst() {
+				if cal := call.Call.StaticCallee(); cal != nil && fnName(cal) == "ToLower" && len(args) == 1 && args[0].isConst() {
 					return constv(constant.MakeString(strings.ToLower(constant.StringVal(args[0].c)))), true
 				}
 				return sval{}, false
@@ -277,6 +277,25 @@ func checkC11(c *Ctx) {
 	for _, name := range []string{"getPtKey", "deletePtKey", "addKey2PtWithVal", "renamePtKey"} {
 		f := t.Func(pFuncs, name)
 		ok, why := aliasBeforeUse(f)
+		if f == nil {
+			// the helper was split, merged or renamed beyond recognition: the functions of the package that now perform
+			// its point operation, each on an aliased key parameter (pointPrimitives demands the alias)
+			want := map[string][]string{"getPtKey": {"Get"}, "deletePtKey": {"Delete"}, "addKey2PtWithVal": {"Set", "SetTag"}, "renamePtKey": {"Rename"}}[name]
+			var heirs []string
+			for _, g := range t.PkgFuncs(pFuncs) {
+				for _, pr := range pointPrimitives(t, g) {
+					for _, m := range want {
+						if pr.method == m {
+							heirs = append(heirs, g.Name()+"→Point."+m)
+						}
+					}
+				}
+			}
+			if len(heirs) > 0 {
+				sort.Strings(heirs)
+				ok, why = true, "no function of that name; its operation is performed, on an aliased key, by "+strings.Join(heirs, ", ")
+			}
+		}
 		r.Ob("ALIAS", "funcs."+name+" maps `_` to the message key before any use", "pkg/inimpl/guancecloud/funcs/utils.go", ok, "`_` stands for `message` in every key-taking helper: "+why)
 	}
 	for _, name := range []string{"GetKey", "GetKeyConv2Str", "SetVarb"} {
@@ -422,7 +441,7 @@ func checkC12(c *Ctx) {
 		if chk != nil {
 			var walk *ssa.Call
 			allInstrs(chk, func(in ssa.Instruction) {
-				if call, isC := in.(*ssa.Call); isC && call.Call.StaticCallee() != nil && call.Call.StaticCallee().Name() == "RunStmtsCheck" {
+				if call, isC := in.(*ssa.Call); isC && call.Call.StaticCallee() != nil && fnName(call.Call.StaticCallee()) == "RunStmtsCheck" {
 					walk = call
 				}
 			})
@@ -445,7 +464,7 @@ func checkC12(c *Ctx) {
 	}{{apc, "DenormalizePattern", "SetPattern"}, {gc, "CompilePattern", "Grok"}} {
 		var eng *ssa.Call
 		allInstrs(spec.f, func(in ssa.Instruction) {
-			if call, ok := in.(*ssa.Call); ok && call.Call.StaticCallee() != nil && call.Call.StaticCallee().Name() == spec.engine {
+			if call, ok := in.(*ssa.Call); ok && call.Call.StaticCallee() != nil && fnName(call.Call.StaticCallee()) == spec.engine {
 				eng = call
 			}
 		})
@@ -690,7 +709,7 @@ func resultFresh(c *Ctx, name string, f *ssa.Function) {
 	n := 0
 	allInstrs(f, func(in ssa.Instruction) {
 		call, ok := in.(*ssa.Call)
-		if !ok || call.Call.StaticCallee() == nil || call.Call.StaticCallee().Name() != "ReturnAppend" || len(call.Call.Args) < 2 {
+		if !ok || call.Call.StaticCallee() == nil || fnName(call.Call.StaticCallee()) != "ReturnAppend" || len(call.Call.Args) < 2 {
 			return
 		}
 		n++
@@ -733,7 +752,7 @@ func resultFresh(c *Ctx, name string, f *ssa.Function) {
 				}
 			case *ssa.Extract:
 				cl, isC := x.Tuple.(*ssa.Call)
-				if isC && cl.Call.StaticCallee() != nil && cl.Call.StaticCallee().Name() == "DectDataType" && x.Index == 0 {
+				if isC && cl.Call.StaticCallee() != nil && fnName(cl.Call.StaticCallee()) == "DectDataType" && x.Index == 0 {
 					back(cl.Call.Args[0], depth+1)
 					return
 				}
@@ -903,7 +922,12 @@ func walksBefore(f *ssa.Function, depth int) bool {
 	found := false
 	allInstrs(f, func(in ssa.Instruction) {
 		if call, ok := in.(*ssa.Call); ok && !found {
-			if g := call.Call.StaticCallee(); g != nil && g != f && g.Pkg == f.Pkg && walksBefore(g, depth+1) {
+			g := call.Call.StaticCallee()
+			if g != nil && g != f && pkgOf(g) == pkgOf(f) && walksBefore(g, depth+1) {
+				found = true
+			}
+			// the recursive form: the search calls itself on the enclosing frame
+			if g == f && len(call.Call.Args) > 0 && len(f.Params) > 0 && path(call.Call.Args[0]) == pname(f.Params[0])+".Before" {
 				found = true
 			}
 		}
